@@ -109,7 +109,7 @@ def selftest(property_id, repo, result):
         scratch = make_scratch(repo)
         try:
             try:
-                if kind == "seeded":
+                if kind in ("seeded", "benign-patch"):
                     applied = subprocess.run(["git", "apply", "--whitespace=nowarn", old], cwd=scratch, capture_output=True, text=True)
                     if applied.returncode != 0:
                         return kind, name, "skipped", applied.stderr.strip()[:120]
@@ -138,6 +138,13 @@ def selftest(property_id, repo, result):
                     meta = json.load(meta_file)
                 if meta.get("breaks_property", meta.get("property")) == property_id:
                     work.append(("seeded", ("seeded change %s" % seed_name, None, patch_path, None)))
+    benign_root = os.path.join(os.path.dirname(os.path.abspath(__file__)), "benign")
+    if os.path.isdir(benign_root):
+        # refactorings written by independent agents and confirmed to preserve behaviour (tools/benign_eval.py)
+        for benign_name in sorted(os.listdir(benign_root)):
+            patch_path = os.path.join(benign_root, benign_name, "patch.diff")
+            if os.path.exists(patch_path):
+                work.append(("benign-patch", ("refactoring %s" % benign_name, None, patch_path, None)))
     jobs = min(16, os.cpu_count() or 4)
     counts = {"benign_silent": 0, "benign_total": 0, "breaking_fired": 0, "breaking_total": 0, "skipped": 0}
     base_exit = 1 if any(True for _ in result.findings if _.key not in {e.get("key") for e in report.load_known_findings().get("known", [])}) else 0
@@ -147,7 +154,7 @@ def selftest(property_id, repo, result):
                 counts["skipped"] += 1
                 result.note("self-test variant skipped (anchor text not found in the current tree): %s" % name)
                 continue
-            if kind == "benign":
+            if kind in ("benign", "benign-patch"):
                 counts["benign_total"] += 1
                 if code == base_exit or (code in (0, 1) and base_exit == 1):
                     counts["benign_silent"] += 1
